@@ -359,4 +359,59 @@ example : ∀ a m, svSome a m 0 = false := by intro _ _; rfl
 example : Offerable svSome (new 5 0 2 vals30) (mkv 2 bA 102) := by
   refine ⟨by decide, rfl, rfl, rfl, ⟨3, 1⟩, rfl, rfl, by decide⟩
 
+/-! ## `SetPeerMaj23`: an (unauthenticated) peer claim of a +2/3 majority
+
+The claim only opens a per-block bucket so that conflicting votes for that block are tracked; it
+must never count as power.  `peerMaj23_frame`: whatever any peer claims, the tally, the counted
+votes, the bit array, the validator list and the +2/3 majority are untouched - so `maj23_sound` /
+`any_sound` cannot be influenced by claims.  `peerMaj23_first_ok` / `peerMaj23_repeat`: a peer's
+first claim is recorded, a repetition of it is a no-op, a different claim is rejected with the
+state unchanged (one claim per peer: the number of buckets a peer can open is one). -/
+
+theorem peerMaj23_frame (s : VoteSet) (p : Nat) (b : BlockId) :
+    (setPeerMaj23 s p b).1.sum = s.sum ∧ (setPeerMaj23 s p b).1.votes = s.votes ∧
+    (setPeerMaj23 s p b).1.bits = s.bits ∧ (setPeerMaj23 s p b).1.maj23 = s.maj23 ∧
+    (setPeerMaj23 s p b).1.vals = s.vals := by
+  unfold setPeerMaj23
+  simp only
+  split
+  · split <;> simp
+  · split
+    · split <;> simp
+    · simp
+
+theorem peerLookup_append_self (p : Nat) (b : BlockId) (l : List (Nat × BlockId))
+    (h : peerLookup p l = none) : peerLookup p (l ++ [(p, b)]) = some b := by
+  induction l with
+  | nil => simp [peerLookup]
+  | cons x xs ih =>
+    obtain ⟨p', b'⟩ := x
+    simp only [peerLookup, List.cons_append] at h ⊢
+    split
+    · rename_i hp; simp [hp] at h
+    · rename_i hp; simp [hp] at h; exact ih h
+
+theorem equal_self (b : BlockId) : b.equal b = true := by simp [BlockId.equal]
+
+theorem peerMaj23_first_ok (s : VoteSet) (p : Nat) (b : BlockId) (h : peerLookup p s.peerMaj = none) :
+    (setPeerMaj23 s p b).2 = .ok ∧ peerLookup p (setPeerMaj23 s p b).1.peerMaj = some b := by
+  unfold setPeerMaj23
+  simp only [h]
+  split
+  · split <;> exact ⟨rfl, peerLookup_append_self p b _ h⟩
+  · exact ⟨rfl, peerLookup_append_self p b _ h⟩
+
+theorem peerMaj23_repeat (s : VoteSet) (p : Nat) (b b' : BlockId) (h : peerLookup p s.peerMaj = some b) :
+    setPeerMaj23 s p b' = (s, if b.equal b' then .ok else .conflict) := by
+  unfold setPeerMaj23
+  simp only [h]
+  split <;> rfl
+
+
+-- non-vacuity: a first claim, its repetition and a conflicting one on a concrete set
+example : (setPeerMaj23 (new 5 0 2 vals30) 9 bA).2 = .ok ∧
+    (setPeerMaj23 (setPeerMaj23 (new 5 0 2 vals30) 9 bA).1 9 bA).2 = .ok ∧
+    (setPeerMaj23 (setPeerMaj23 (new 5 0 2 vals30) 9 bA).1 9 bA').2 = .conflict ∧
+    (setPeerMaj23 (new 5 0 2 vals30) 9 bA).1.maj23 = none := by decide
+
 end KV.Props.C02
